@@ -741,7 +741,52 @@ def gen_sqlite(rng):
                   [rng.choice(sorted(ids)).hex(), gen_examples(rng, 2)]])
   elif fail == 'strfeat':
     calls.append([[new_id().hex(), gen_examples(rng, 2, mode='strfeat')]])
-  return {'kind': 'sqlite', 'calls': calls}
+  return {'kind': 'sqlite', 'calls': calls, 'arg': rng.choice(['list', 'list', 'gen', 'iter', 'tuple']),
+          'ctx': rng.random() < 0.7}
+
+
+def gen_sqlite_many_small(rng, n_calls):
+  """many small add_many calls (0..3 clients each) into one builder"""
+  calls, g = [], rng.randrange(0, 50)
+  for _ in range(n_calls):
+    k = rng.choice([0, 1, 1, 2, 3])
+    calls.append([[big_id(g + j).hex(), big_examples(g + j)] for j in range(k)])
+    g += k
+  return {'kind': 'sqlite', 'calls': calls, 'arg': rng.choice(['list', 'gen', 'iter']), 'ctx': rng.random() < 0.5}
+
+
+def big_id(g):
+  """distinct ids for the g-th client of a large build; a third of them end in a zero byte,
+  a third share a one-byte prefix (SQLite BLOB keys: prefixes / trailing NULs must stay distinct)."""
+  base = g.to_bytes(3, 'big')
+  if g % 3 == 0:
+    return base + b'\x00'
+  if g % 3 == 1:
+    return b'c' + base
+  return base
+
+
+def big_examples(g):
+  """tiny dataset of the g-th client: one int32 feature holding g, mostly one example."""
+  rows = 0 if g % 11 == 10 else 2 if g % 5 == 4 else 1
+  item = (g % 2**31).to_bytes(4, 'little').hex()
+  return ['dict', [[['str', '78'], ['nd', [rows], 'int32', False, 'C', [item] * rows]]]]
+
+
+def expand_calls(case):
+  """The add_many calls of a sqlite case. Large builds are stored compactly as
+  {'big': [n1, n2, ...]} = one add_many call per entry with that many tiny clients."""
+  if 'big' not in case:
+    return case['calls']
+  calls, g = [], 0
+  for n in case['big']:
+    calls.append([[big_id(g + j).hex(), big_examples(g + j)] for j in range(n)])
+    g += n
+  return calls
+
+
+def size_class(n):
+  return str(n) if n <= 11 else '12..999' if n < 1000 else '1000' if n == 1000 else '1001..' if n <= 2000 else '2001..'
 
 
 ALGOS = ['fed_avg', 'fed_prox', 'mime', 'mime_lite', 'hyp_cluster', 'agnostic_fed_avg', 'apfl']
@@ -753,7 +798,7 @@ class C16(core.Property):
   RULE = ('tree cases: generated from the dispatch branches of _msgpack_ext_pack/_unpack (leaf kind, '
           'dtype x byte order x layout x shape class, object-array element position, scalar boundaries, '
           'dict-key type, nesting depth 0..4, at most one unsupported leaf per tree); sqlite cases: '
-          'add_many call sequences incl. ragged/empty/0-d/duplicate-id/str-feature failures; '
+          'add_many call sequences incl. ragged/empty/0-d/duplicate-id/str-feature failures, single calls of 1000..5000 tiny clients and many small calls, list/generator/iterator/tuple arguments, builder as context manager or plain object; '
           'ckpt/state cases: every algorithm x server optimizer, and generated trees through pickle. '
           'non-trivial = the case holds an array / numpy scalar / object array / unsupported leaf, or is a '
           'sqlite/ckpt case with at least one client/round; distinct by case digest')
@@ -833,6 +878,24 @@ class C16(core.Property):
         for c in reversed(path):
           t = ['list', [['int', 0], t]] if c == 'l' else ['dict', [[['str', '6b'], t], [['bytes', '6b'], ['none']]]]
         yield {'kind': 'tree', 'tree': t}
+    # 2c. SQLite builder: large single add_many calls (list / generator / iterator argument, builder as
+    # context manager or plain object), calls of exactly / just under / just over round sizes, many small calls
+    if tier == 'quick':
+      bigs = [([1001], 'gen', True), ([rng.choice([2500, 3003])], 'list', False),
+              ([rng.choice([999, 1000]), rng.choice([1000, 1002])], 'iter', True)]
+    else:
+      bigs = [([n], a, c) for n, a, c in
+              [(1000, 'list', True), (1001, 'gen', True), (1001, 'list', False), (1002, 'iter', True),
+               (2001, 'gen', False), (2002, 'list', True), (2500, 'gen', True), (3003, 'iter', False),
+               (3004, 'tuple', True), (4004, 'gen', True), (rng.randrange(1003, 5000), 'gen', True),
+               (129, 'gen', True), (257, 'list', False), (513, 'iter', True), (1025, 'gen', False),
+               (2049, 'list', True), (4097, 'gen', True), (8193, 'iter', True), (10001, 'gen', True)]]
+      bigs += [([999, 1001], 'gen', True), ([1000, 1000, 7], 'list', False), ([1001, 1001], 'iter', True),
+               ([700, 700, 700], 'gen', True), ([1, 2000, 1], 'gen', False)]
+    for sizes, arg, cm in bigs:
+      yield {'kind': 'sqlite', 'big': sizes, 'arg': arg, 'ctx': cm}
+    for _ in range(3 if tier == 'quick' else 25):
+      yield gen_sqlite_many_small(rng, rng.choice([8, 20, 40]))
     # 3. checkpoint / state round trips
     for i, algo in enumerate(ALGOS):
       opts = OPTS if tier == 'thorough' else [OPTS[(i + rng.randrange(6)) % 6], 'sgd']
@@ -859,8 +922,25 @@ class C16(core.Property):
     if k in ('tree', 'state'):
       for t in shrink_tree(case['tree']):
         yield {**case, 'tree': t}
+    elif k == 'sqlite' and 'big' in case:
+      big = case['big']
+      for i in range(len(big)):
+        if len(big) > 1:
+          yield {**case, 'big': big[:i] + big[i + 1:]}
+      for i, n in enumerate(big):
+        for c in sorted({n // 2, n - 1000, n - 100, n - 10, n - 1}):
+          if 0 < c < n:
+            yield {**case, 'big': big[:i] + [c] + big[i + 1:]}
+      if case.get('arg', 'list') != 'list':
+        yield {**case, 'arg': 'list'}
+      if not case.get('ctx', True):
+        yield {**case, 'ctx': True}
     elif k == 'sqlite':
       calls = case['calls']
+      if case.get('arg', 'list') != 'list':
+        yield {**case, 'arg': 'list'}
+      if not case.get('ctx', True):
+        yield {**case, 'ctx': True}
       for i in range(len(calls)):
         if len(calls) > 1:
           yield {**case, 'calls': calls[:i] + calls[i + 1:]}
@@ -978,7 +1058,30 @@ class C16(core.Property):
 
   # ---------------------------------------------------------------- sqlite
   def _eval_sqlite(self, case, ctx):
-    calls = case['calls']
+    calls = expand_calls(case)
+    arg_mode, use_ctx = case.get('arg', 'list'), case.get('ctx', True)
+
+    def as_arg(pairs):
+      """the same (id, examples) pairs as the kind of iterable the caller may hand to add_many"""
+      if arg_mode == 'gen':
+        return (p for p in pairs)
+      if arg_mode == 'iter':
+        return iter(pairs)
+      if arg_mode == 'tuple':
+        return tuple(pairs)
+      return pairs
+
+    def fill(b):
+      for call in calls:
+        rows = [(bytes.fromhex(i), build(s), s) for i, s in call]
+        try:
+          b.add_many(as_arg([(i, o) for i, o, _ in rows]))
+          log.append('ok')
+          stored.extend(rows)
+        except Exception as e:   # pylint: disable=broad-except
+          log.append(type(e).__name__)
+          break                  # the builder is closed after a failed call (rollback)
+
     d = tempfile.mkdtemp(prefix='c16sq')
     path = os.path.join(d, 'data.sqlite')
     problems, corr = [], []
@@ -986,16 +1089,15 @@ class C16(core.Property):
     out_buf = io.StringIO()
     try:
       with contextlib.redirect_stdout(out_buf):
-        with self.sq.SQLiteFederatedDataBuilder(path) as b:
-          for call in calls:
-            rows = [(bytes.fromhex(i), build(s), s) for i, s in call]
-            try:
-              b.add_many([(i, o) for i, o, _ in rows])
-              log.append('ok')
-              stored += rows
-            except Exception as e:   # pylint: disable=broad-except
-              log.append(type(e).__name__)
-              break                  # the builder is closed after a failed call (rollback)
+        if use_ctx:
+          with self.sq.SQLiteFederatedDataBuilder(path) as b:
+            fill(b)
+        else:                        # plain object, closed explicitly through its exit protocol
+          b = self.sq.SQLiteFederatedDataBuilder(path)
+          try:
+            fill(b)
+          finally:
+            b.__exit__(None, None, None)
         fd = self.sq.SQLiteFederatedData.new(path)
         try:
           ids = list(fd.client_ids())
@@ -1055,7 +1157,13 @@ class C16(core.Property):
     want_ids = [i for i, _, _ in stored]
     # the order in which ids are listed is not part of the property (rowid vs sorted order are both fine)
     if sorted(ids) != sorted(want_ids):
-      problems.append(f'client ids read back {ids} != written {want_ids}')
+      missing = sorted(set(want_ids) - set(ids))
+      extra = sorted(set(ids) - set(want_ids))
+      pos = [want_ids.index(m) for m in missing[:5]]
+      problems.append(f'client ids read back differ from the {len(want_ids)} committed by add_many (sizes of the calls made: '
+                      f'{[len(c) for c in calls[:len(log)]]}, results {log[:6]}): {len(ids)} listed, {len(missing)} missing '
+                      f'(first: {missing[:5]} = written at positions {pos}), {len(extra)} unexpected {extra[:5]}'
+                      + (f', {len(ids) - len(set(ids))} listed twice' if len(ids) != len(set(ids)) else ''))
     if ids != ids2:
       problems.append('client_ids() is not deterministic')
     if nclients != len(want_ids):
@@ -1068,7 +1176,7 @@ class C16(core.Property):
 
     want_sizes = [(i, lead(s)) for i, _, s in stored]
     if sorted(tuple(x) for x in sizes) != sorted(want_sizes):
-      problems.append(f'client sizes read back {sizes} != row counts written {want_sizes}')
+      problems.append(f'client sizes read back != row counts written: {_short(repr(sorted(set(map(tuple, sizes)) ^ set(want_sizes))[:6]))}')
     key = None
     per_by_id = dict(zip(ids, per))
     for cid, obj, spec in stored:
@@ -1113,8 +1221,10 @@ class C16(core.Property):
       for name, a, b in zip(('add_many log', 'client_ids', 'client_sizes', 'clients'), impl_obs, ans):
         if a != b:
           corr.append(f'sqlite {name}: impl {_short(a)} vs model {_short(b)}')
-    tags = {'kind=sqlite', f'calls={len(calls)}', f'clients={len(stored)}'} | {f'add_many={x}' for x in log}
-    for _, _, s in stored:
+    tags = {'kind=sqlite', f'calls={size_class(len(calls))}', f'clients={size_class(len(stored))}',
+            f'add_many_arg={arg_mode}', 'builder=' + ('with' if use_ctx else 'plain+exit')}
+    tags |= {f'add_many={x}' for x in log} | {f'call_size={size_class(len(c))}' for c in calls}
+    for _, _, s in stored[:50]:
       leaf_tags(s, tags)
     return Outcome(oracle_fail='; '.join(problems[:3]) or None, corr_fail='; '.join(corr[:3]) or None,
                    key=key or ('C16/sqlite/other' if problems else None),
